@@ -198,8 +198,8 @@ func safeDo(f func()) {
 }
 
 type memResult struct {
-	h             [5]int64
-	base, emptied int64
+	h                      [5]int64
+	base, emptied, drained int64
 }
 
 func runMemScenario(sc *memScenario) (res memResult, msg string) {
@@ -294,6 +294,32 @@ func runMemScenario1(sc *memScenario) (memResult, string) {
 		over = ""
 		break
 	}
+	if over != "" {
+		runtime.KeepAlive(sub)
+		return res, over
+	}
+	// fill and drain: a tree that once held many keys and was emptied again keeps no more than a
+	// small constant (retention proportional to the former content would show as megabytes here)
+	const fill = 30000
+	for i := 0; i < fill; i++ {
+		k := freshKey(sc.kind, 10000000+i)
+		safeDo(func() { sub.Insert(k, i) })
+	}
+	for i := 0; i < fill; i++ {
+		k := freshKey(sc.kind, 10000000+i)
+		safeDo(func() { sub.Delete(k) })
+	}
+	if sub.Size() == 0 {
+		for attempt := 0; attempt < 3; attempt++ {
+			res.drained = liveHeap()
+			if res.drained-res.base > 256<<10 {
+				over = fmt.Sprintf("after holding %d keys and being emptied again the tree retains %d KiB above the pre-construction baseline", fill, (res.drained-res.base)>>10)
+				continue
+			}
+			over = ""
+			break
+		}
+	}
 	runtime.KeepAlive(sub)
 	return res, over
 }
@@ -308,13 +334,14 @@ func memTrace(sc *memScenario, msg string) *Trace {
 }
 
 var c17Essential = [][2]string{{"collation", "q"}, {"collation", "s"}, {"collation", "i"}, {"alpha", "c"}, {"unsigned", "c"}, {"signed", "c"},
-	{"float", "c"}, {"compound", "c"}, {"collation", "c"}, {"alpha", "s"}, {"alpha", "w"}, {"compound", "m"}, {"alpha", "i"}, {"collation", "o"}, {"alpha", "f"}, {"collation", "f"}, {"compound", "f"}, {"unsigned", "f"}}
+	{"float", "c"}, {"compound", "c"}, {"collation", "c"}, {"alpha", "s"}, {"alpha", "w"}, {"compound", "m"}, {"alpha", "i"}, {"collation", "o"}, {"alpha", "f"}, {"collation", "f"}, {"compound", "f"}, {"unsigned", "f"},
+	{"alpha", "q"}, {"unsigned", "i"}, {"compound", "i"}, {"float", "q"}, {"signed", "i"}, {"compound", "q"}}
 
 func TestC17(t *testing.T) {
 	var caseNo atomic.Int32
 	stats.Property = "C17"
 	replayRegressions(t, "C17")
-	stats.Rule = "rapid draws a scenario: tree kind, key set (50..2000 keys from the kind's universe) and operation mix (s: lookups only, hits and misses; i: sequences and extremes only; q: every read-only method incl. absent probes and failed deletes; o: overwrites; c: delete/re-insert churn of a fixed key set; f: sliding window of ever fresh keys at constant size; w: grow/shrink waves; m: mixed); the loop runs 8N operations and the live heap after two forced GCs is sampled at 0, N, 2N, 4N and 8N operations (violation: total growth > 1 MiB with growth > 256 KiB in at least two of the four intervals), then all keys are deleted and the tree may retain at most 256 KiB; " +
+	stats.Rule = "rapid draws a scenario: tree kind, key set (50..2000 keys from the kind's universe) and operation mix (s: lookups only, hits and misses; i: sequences and extremes only; q: every read-only method incl. absent probes and failed deletes; o: overwrites; c: delete/re-insert churn of a fixed key set; f: sliding window of ever fresh keys at constant size; w: grow/shrink waves; m: mixed); the loop runs 8N operations and the live heap after two forced GCs is sampled at 0, N, 2N, 4N and 8N operations (violation: total growth > 1 MiB with growth > 256 KiB in at least two of the four intervals), then all keys are deleted and the tree may retain at most 256 KiB, also after a fill-and-drain with 30 000 further keys; " +
 		"non-trivial = the tree was non-empty during the loop and all 8N operations executed; distinct by (kind, mix, key-set hash)"
 	n := 100000
 	if *flagTier == "thorough" {
@@ -368,7 +395,7 @@ func TestC17(t *testing.T) {
 		stats.AddCase(true, tr.Hash(), labels, func() any {
 			return map[string]any{"kind": kind.Name(), "mix": mix, "keys": len(sc.keys), "ops": 8 * n,
 				"heap_growth_after_N_KiB": (res.h[1] - res.h[0]) >> 10, "heap_growth_after_8N_KiB": (res.h[4] - res.h[0]) >> 10,
-				"retained_when_emptied_KiB": (res.emptied - res.base) >> 10}
+				"retained_when_emptied_KiB": (res.emptied - res.base) >> 10, "retained_after_fill_and_drain_KiB": (res.drained - res.base) >> 10}
 		})
 		if msg != "" {
 			failures.addOther(tr)
